@@ -440,3 +440,14 @@ def run(rep: Report, tier: str):
     for i in tmp.instances:
         if i.ok and i.rule == "C01.reach":
             rep.ok("C02.analysis-inert", i.construct, i.what, i.where)
+
+    # value level, interpreted last: the checked load end to end over byte streams x thresholds x ways of arming x kinds of stream
+    from ..loadworlds import explore as _load_explore
+
+    rep.rule("C02.load-worlds", "returns only within the threshold and then exactly what the stock unpickler gives for the analysed bytes; otherwise raises with nothing resolved or called", 1)
+    found, n_worlds = _load_explore(repo, tier)
+    ldf = repo.func(LOADER)
+    for key, (c, msg) in sorted(found.items()):
+        rep.bad("C02.load-worlds", ldf.qualname, key, f"{msg} [{c} world(s)]", ldf.file, ldf.line)
+    rep.ok("C02.load-worlds", ldf.qualname, f"{n_worlds} worlds (10 byte streams of every verdict class incl. three on which parsing or analysis raises x six thresholds x checked loader / global hook / safety context x in-memory, file-like and content-changing streams) interpreted end to end; the pickle module's real entry points are CPython's unpickler on inert logging stand-ins", "", nontrivial=True)
+
